@@ -42,7 +42,9 @@ Section ExecTerm.
   Variable tyres : str -> option (pv -> tyname_res).
   Variable rank : str -> nat.
   Hypothesis Hacyc : acyclic frags rank.
-  Hypothesis Hco : forall fd node, coerce_args fd node <> OutOfFuel.
+  (* the argument coercion of the fields the executor can meet terminates *)
+  Hypothesis Hco : forall tn name k fd node,
+      field_definition sch tn name = Ok (Some (k, fd)) -> coerce_args fd node <> OutOfFuel.
 
   Notation reach := (reach frags vs).
   Notation path_len := (path_len frags vs).
@@ -155,13 +157,14 @@ Section ExecTerm.
     - destruct (Nat.eqb k REJ_COERCION); discriminate.
   Qed.
 
-  Lemma resolve_field_term nodes (Hch : exec_term (children_of nodes)) tname parent k fd p :
+  Lemma resolve_field_term nodes (Hch : exec_term (children_of nodes)) tname parent k fd p
+        (Hfd : forall node, coerce_args fd node <> OutOfFuel) :
     ev (fun fuel cfuel => resolve_field sch coerce_args world tyres (ex cfuel fuel) tname parent k fd nodes p
                           <> OutOfFuel).
   Proof.
     unfold resolve_field. destruct nodes as [|node rest]; [apply ev_const; intros; discriminate|].
     destruct (coerce_args fd node) as [args| | |] eqn:Ec;
-      try (apply ev_const; intros; discriminate); [|exfalso; eapply Hco; exact Ec].
+      try (apply ev_const; intros; discriminate); [|exfalso; eapply Hfd; exact Ec].
     destruct k; try (apply ev_const; intros; discriminate).
     - destruct (world p parent tname (f_name fd) args); try (apply ev_const; intros; discriminate);
         apply complete_field_term; exact Hch.
@@ -178,7 +181,7 @@ Section ExecTerm.
       destruct nodes as [|node rest]; [apply ev_const; intros; discriminate|].
       destruct (field_definition sch tname (sel_name node)) as [[[k fd]|]| | |] eqn:Ed; simpl;
         try (apply ev_const; intros; discriminate).
-      + eapply ev_mono; [|apply ev_and; [apply (resolve_field_term (node :: rest) Hch tname parent k fd (p ++ [PKey key]))
+      + eapply ev_mono; [|apply ev_and; [apply (resolve_field_term (node :: rest) Hch tname parent k fd (p ++ [PKey key]) (fun nd => Hco _ _ _ _ nd Ed))
                                         |apply IH; intros kv Hkv; apply Hg; right; exact Hkv]].
         intros a b [H1 H2]. apply obind_not_oof; [exact H1|]. intros r _.
         apply obind_not_oof; [exact H2|]. intros; discriminate.
@@ -224,7 +227,7 @@ Section ExecTerm.
       rewrite cinto_mono; [|rewrite Hc0; discriminate]. rewrite Hc0. simpl. discriminate.
   Qed.
 
-  Theorem exec_terminates ss tname v p :
+  Theorem exec_terminates_fields ss tname v p :
     exists F CF, forall fuel cfuel, F <= fuel -> CF <= cfuel ->
       exec_sel sch frags vs coerce_args world tyres cfuel fuel tname v p ss <> OutOfFuel.
   Proof.
@@ -233,3 +236,15 @@ Section ExecTerm.
     exact (exec_term_bounded N r ss Hb HN tname v p).
   Qed.
 End ExecTerm.
+
+(* the same with the coarser premise "argument coercion never runs out of fuel" *)
+Theorem exec_terminates sch frags vs coerce_args world tyres rank :
+  acyclic frags rank ->
+  (forall fd node, coerce_args fd node <> OutOfFuel) ->
+  forall ss tname v p,
+    exists F CF, forall fuel cfuel, F <= fuel -> CF <= cfuel ->
+      exec_sel sch frags vs coerce_args world tyres cfuel fuel tname v p ss <> OutOfFuel.
+Proof.
+  intros Hacyc Hco ss tname v p.
+  apply (exec_terminates_fields sch frags vs coerce_args world tyres rank Hacyc); intros; apply Hco.
+Qed.
